@@ -31,6 +31,25 @@ PROPS = json.load(open(os.path.join(VERIF, 'contracts', 'properties.json')))
 VERUS = shutil.which('verus') or '/opt/veriftools/verus/verus'
 
 
+def load_standins():
+    try:
+        return json.load(open(os.path.join(VERIF, 'contracts', 'standins.json')))
+    except Exception:
+        return []
+
+
+def standin_sha(e):
+    """hash of the current text (or derive attributes) of a crate item that a stand-in represents"""
+    try:
+        import rsitems
+        sf = rsitems.SourceFile(os.path.join(asm.REPO_SRC, e['file']))
+        it = sf.find(e['item'])
+        txt = sf.text(it) if e.get('what') == 'text' else '\n'.join(it.attrs)
+        return rsitems.sha(txt)[:16]
+    except Exception as ex:
+        return 'missing (%s)' % str(ex)[:60]
+
+
 def load_known():
     p = os.path.join(VERIF, 'known_findings.json')
     if os.path.exists(p):
@@ -477,6 +496,15 @@ def main(argv):
     inconclusive = []
     known_hits = []
     own_names = {verus_name(m['path']): m for m in own_fns}
+    # items of the crate that are represented by hand-written stand-ins (assumed contracts, derived impls): the
+    # stand-in was written for one text; if that text changed the verifier's answer is about other code
+    for e in load_standins():
+        if e['unit'] not in units:
+            continue
+        cur = standin_sha(e)
+        if cur != e['sha256']:
+            inconclusive.append('%s: drift: %s::%s (%s) changed (%s, now %s): its stand-in / assumed contract was written for the previous text' % (
+                e['unit'], e['file'], e['item'], e['what'], e['sha256'], cur))
     for u in units:
         c = cls[u]
         if c['status'] in ('drift', 'frontend', 'resource'):
